@@ -169,7 +169,7 @@ int main(void) {
                                   H(decls, f"{name}({args});"),
                           object_bits=12,
                           runs=([Run(only=["*.postcondition.1"], backend="z3", timeout=120, label="which-pixel"),
-                                 Run(exclude=["*.postcondition.1"], backend="sat", timeout=600, label="gradient")]
+                                 Run(exclude=["*.postcondition.1"], backend="kissat", timeout=600, label="gradient")]
                                 if key != "interior" else
                                 # the 60-leaf tree: one solver call per clause, kissat (MiniSat: 236 s for the frame clause, kissat 56 s)
                                 [Run(only=["*.postcondition.1"], backend="z3", timeout=300, label="which-pixel")] +
